@@ -5,4 +5,6 @@ repo=${1:-/repo}; shift
 here=$(cd "$(dirname "$0")" && pwd)
 w=${DEMO_DIR:-/tmp/flute-demo}
 mkdir -p $w && rm -rf $w/src $w/tests && cp -r $here/demo/src $here/demo/tests $w/ && sed "s#@REPO@#$repo#" $here/demo/Cargo.toml.in > $w/Cargo.toml && cp $repo/Cargo.lock $w/Cargo.lock
-cd $w && CARGO_NET_OFFLINE=true CARGO_TARGET_DIR=$w/target cargo test --offline --no-fail-fast "$@" 2>&1 | grep -E "^test |test result|panicked|error(\[|:)" 
+# one target directory per analysed tree: cargo was seen to reuse the flute artifact of another path with the same package name/version
+t=$w/target-$(echo "$repo" | md5sum | cut -c1-8)
+cd $w && CARGO_NET_OFFLINE=true CARGO_TARGET_DIR=$t cargo test --offline --no-fail-fast "$@" 2>&1 | grep -E "^test |test result|panicked|error(\[|:)" 
